@@ -35,10 +35,51 @@ def offsets_trace(rng, image, ss, ps, offsets, steps, keys):
     return ops
 
 
-def bytes_trace(byte_range):
+LONG_SRC = """#! mrasm
+ JR main
+isr:
+ INC R2
+ RETI
+main:
+ LDSP 0xEF
+ MOV (0xF9), 1
+ EI
+ LD R0, %d
+ LD R1, %d
+ %s R0, R1
+ INC R0
+ DI
+ STOP
+"""
+
+
+def long_instruction_trace():
+    """the longest instructions (DIV with divisor 1, MUL) with a key interrupt pending: the step covers instruction + interrupt entry"""
+    ops = [{"op": "new"}]
+    for mn, a, b in [("DIV", 255, 1), ("DIV", 254, 1), ("DIV", 253, 1), ("DIV", 252, 1), ("DIV", 200, 1), ("DIV", 255, 2), ("DIV", 255, 0), ("DIV", 0, 1),
+                     ("MUL", 255, 255), ("MUL", 255, 1), ("MUL", 1, 255), ("MUL", 0, 0)]:
+        for when in ("before", "inside", "late", "never"):
+            ops.append({"op": "mode", "v": "Assembly"})
+            ops.append({"op": "load_asm", "src": LONG_SRC % (a, b, mn)})
+            ops.append({"op": "key_clock", "n": 6})          # JR, LDSP, MOV, EI, LD, LD: at the boundary before DIV / MUL
+            if when == "before":
+                ops.append({"op": "key_int"})
+            elif when != "never":
+                ops.append({"op": "mode", "v": "Real"})
+                ops.append({"op": "key_clock", "n": 7 if when == "inside" else 14})
+                ops.append({"op": "key_int"})
+                ops.append({"op": "mode", "v": "Assembly"})
+            ops.append({"op": "key_clock", "n": 8})
+    return ops
+
+
+def bytes_trace(byte_range, all_seconds=False, rng=None):
     ops = [{"op": "new"}, {"op": "mode", "v": "Assembly"}]
     for b in byte_range:
-        seconds = [0x10] if b < 240 else [0x00, 0x01, 0x05, 0x10, 0x2C, 0x3F, 0x43, 0x47, 0x48, 0x4F, 0x5A, 0x6F, 0x70, 0xAA, 0xFF]
+        seconds = [0x10] if b < 240 else sorted({0x00, 0x01, 0x05, 0x10, 0x2C, 0x3F, 0x43, 0x47, 0x48, 0x4F, 0x5A, 0x6F, 0x70, 0xAA, 0xFF, b, b ^ 1, b - 16}
+                                                | set(rng.sample(range(256), 24) if rng else []))
+        if all_seconds and b >= 240:
+            seconds = list(range(256))
         for b2 in seconds:
             img = [b, 77, b2, 130, 5] if (b >= 240 and (b >> 2) & 3 >= 2 and b & 3 == 3) else [b, b2, 130, 5, 1]
             ops.append({"op": "load", "image": img, "ss": 16, "ps": 255})
@@ -69,7 +110,12 @@ def run(tier, seed, replay):
         img = ic.random_image(rng, True, 100)
         traces.append(vlib.run_scenario(offsets_trace(rng, img, 0, 255, sorted(rng.sample(range(0, 300), 25)), 10, [rng.randrange(300)]), "c11-rnd%d" % i)[0])
     traces.append(vlib.run_scenario(bytes_trace(range(0, 128)), "c11-bytes-a")[0])
-    traces.append(vlib.run_scenario(bytes_trace(range(128, 256)), "c11-bytes-b")[0])
+    traces.append(vlib.run_scenario(bytes_trace(range(128, 248), rng=rng), "c11-bytes-b")[0])
+    traces.append(vlib.run_scenario(bytes_trace(range(248, 256), rng=rng), "c11-bytes-c")[0])
+    if tier == "thorough":
+        for b in range(240, 256, 2):
+            traces.append(vlib.run_scenario(bytes_trace(range(b, b + 2), all_seconds=True), "c11-bytes-all-%d" % b)[0])
+    traces.append(vlib.run_scenario(long_instruction_trace(), "c11-long")[0])
     results = vlib.validate_traces(traces, cfg="TraceMachine")
     nev = ic.report_trace_results(v, traces, results, "asmtrace", "assembly-step")
     cov = {
@@ -79,6 +125,6 @@ def run(tier, seed, replay):
         "rule": "TLC: the code-shaped two-phase loop walked next to the declarative definition from every state of the edge-by-edge runs of the "
                 "program suite (key interrupt at any point) and from a boundary with every byte at PC (every second byte for the two-byte class); "
                 "real machine: for every offset j the program is clocked j single edges and then stepped in assembly mode (each step's edge count "
-                "measured against a single-stepped clone; watchdog for non-return), all 256 bytes at PC, mode switches; validated by TraceMachine",
+                "measured against a single-stepped clone; watchdog for non-return), all 256 bytes at PC (two-byte class with second byte = prefix and sampled / all second bytes), DIV by 1 / MUL with a key interrupt pending before / inside the instruction, mode switches; validated by TraceMachine",
     }
     return v.finish("model_checking", cov, ["TLC", "an edge that changes nothing is unobservable: the step of a stuck sequencer may issue it"])
